@@ -27,6 +27,7 @@ ASSUMPTIONS = ["hash function = uninterpreted function of the covered bytes (con
 INNER = {
     "u16": "Int16ub", "varint": "VarInt", "struct": "Struct('a'/Byte, 'b'/VarInt)", "prefixed": "Prefixed(Byte, GreedyBytes)",
     "array": "Array(2, Int16ul)", "bits": "BitStruct('a'/Nibble, 'b'/Nibble)",
+    "bswap": "ByteSwapped(Bytes(3))", "xorfix": "FixedSized(2, ProcessXor(0x5a, GreedyBytes))", "rot": "FixedSized(2, ProcessRotateLeft(4, 1, GreedyBytes))",
 }
 
 
@@ -38,9 +39,15 @@ def instances(tier, seed):
             out.append(dict(name="rawcopy parse %s @%d" % (k, s), params=dict(kind="rc-parse", inner=k, s=s, n=n)))
         out.append(dict(name="rawcopy build %s" % k, params=dict(kind="rc-build", inner=k, n=n)))
     for w in ("Prefixed(Byte, Struct('h'/Byte, 'r'/RawCopy(Int16ub), 't'/GreedyBytes))", "FixedSized(5, Struct('h'/Byte, 'r'/RawCopy(VarInt), 't'/GreedyBytes))",
-              "Struct('p'/Bytes(2), 'q'/Prefixed(Byte, Prefixed(Byte, Struct('r'/RawCopy(Byte), 'g'/GreedyBytes))))"):
-        out.append(dict(name="rawcopy in substream %s" % w[:40], params=dict(kind="rc-sub", source=w, n=8)))
-        out.append(dict(name="rawcopy in substream, compiled %s" % w[:40], params=dict(kind="rc-sub", source=w, n=8, compiled=True)))
+              "Struct('p'/Bytes(2), 'q'/Prefixed(Byte, Prefixed(Byte, Struct('r'/RawCopy(Byte), 'g'/GreedyBytes))))",
+              "Struct('p'/Byte, 'q'/NullTerminated(Struct('r'/RawCopy(Byte), 'g'/GreedyBytes), consume=False), 't'/Byte)",
+              "Struct('p'/Byte, 'q'/NullTerminated(Struct('r'/RawCopy(Int16ub), 'g'/GreedyBytes), term=b'\\xff\\xff', require=False))",
+              "Struct('p'/Bytes(3), 'q'/NullTerminated(Struct('h'/Byte, 'r'/RawCopy(Byte), 'g'/GreedyBytes), include=True))"):
+        out.append(dict(name="rawcopy in substream %s" % w, params=dict(kind="rc-sub", source=w, n=8)))
+        if "NullTerminated" not in w:
+            out.append(dict(name="rawcopy in substream, compiled %s" % w, params=dict(kind="rc-sub", source=w, n=8, compiled=True)))
+    for field in ("PaddedString(4, 'ascii')", "CString('ascii')", "PascalString(Byte, 'utf8')"):
+        out.append(dict(name="checksum kept as text in %s: corrupted digest" % field, params=dict(kind="ck-text", field=field)))
     for k in sorted(INNER):
         out.append(dict(name="rawcopy built twice from one Container %s" % k, params=dict(kind="rc-twice", inner=k, n=n)))
     for k in sorted(INNER):
@@ -71,6 +78,8 @@ def harness(ctx, C, p):
         return _rc_edit(ctx, C, p)
     if k == "rc-twice":
         return _rc_twice(ctx, C, p)
+    if k == "ck-text":
+        return _ck_text(ctx, C, p)
     return _ck(ctx, C, p)
 
 
@@ -150,6 +159,21 @@ def _rc_edit(ctx, C, p):
     n = len(canon)
     ctx.check("fields after the RawCopy see the offsets, length and data of what was built now",
               ctx.eq(out.value, bytes(k) + canon + mkbytes([n, k, k + n]) + canon))
+    return "ok"
+
+
+def _ck_text(ctx, C, p):
+    """digests stored as text (hex in a string field): a digest that differs is reported as ChecksumError, like bytes and integers are"""
+    d = mk(C, "Struct('fields'/RawCopy(Struct('a'/Int16ub, 'b'/Byte)), 'checksum'/Checksum(%s, lambda data: '%%04x' %% (sum(data) & 0xffff), this.fields.data))" % p["field"])
+    good = d.build(dict(fields=dict(value=dict(a=0x1234, b=0x56))))
+    ctx.check("a built text checksum verifies", api.outcome(d.parse, good).ok)
+    pos = ctx.choice("pos", [len(good) - 4 + i for i in range(4)] if "Padded" in p["field"] else [3 + i + (1 if "Pascal" in p["field"] else 0) for i in range(4)])
+    c = ctx.int("char", 48, 102)
+    ctx.assume(api.not_term(ctx.eq(c, good[pos])))
+    bad = good[:pos] + mkbytes([c]) + good[pos + 1:]
+    r = api.outcome(d.parse, bad)
+    ctx.check("a text digest with one character altered is rejected", not r.ok)
+    ctx.check("and reported as ChecksumError (got %s)" % type(r.exc).__name__, isinstance(r.exc, C.ChecksumError))
     return "ok"
 
 
